@@ -189,7 +189,7 @@ func (g *G) expr(d int) string {
 		return "(aget [" + g.expr(d-1) + " " + g.expr(d-1) + "] " + fmt.Sprint(g.r.Intn(2)) + ")"
 	case 14:
 		g.tag("syntax-quote")
-		return "(len ^(1 ~" + g.expr(d-1) + " ~@(list " + g.expr(d-1) + " " + g.leaf() + ") [2 ~" + g.leaf() + " ~@[" + g.leaf() + "]] x))"
+		return "(len ^(1 ~" + g.expr(d-1) + " ~@(list " + g.expr(d-1) + " " + g.leaf() + ") [2 ~" + g.leaf() + " ~@(list " + g.leaf() + ")] x))"
 	case 15:
 		g.tag("hash")
 		return "(hget (hash a:" + g.expr(d-1) + " b:" + g.leaf() + ") %a)"
@@ -216,7 +216,7 @@ func (g *G) expr(d int) string {
 		return "(eval (quote " + g.withVars(nil, func() string { return "(+ 1 " + g.lit() + ")" }) + "))"
 	case 22:
 		g.tag("hash-syntax-quote")
-		return "(len (keys ^{a:~" + g.leaf() + " b:2}))"
+		return "(len ^{a:~" + g.leaf() + " b:2})"
 	default:
 		g.tag("infix-assign")
 		v := g.fresh("q")
